@@ -260,6 +260,10 @@ inductive Op where
   /-- a scheduling point of the starter between `&` and `wait` (`( : )`): changes WHEN the asynchronous child
       runs, and nothing else -/
   | yield
+  /-- commands of the innermost child that need NEW descriptors: a pipeline `: | :` (`Pipe::pipe`: two free descriptors
+      below the limit), a command substitution `: "$(:)"` (the same), a here-document on a regular built-in
+      (`probe THD <<E`: the redirection engine saves fd 0 at ≥ 10 and opens a temporary file) -/
+  | pl | cs | hd
   deriving DecidableEq, Repr
 
 /-- sorted insertion into the list of enabled options -/
@@ -565,6 +569,15 @@ def execRedir (p : Proc) (target : Nat) (body : RedirBody) : Bool × Proc :=
 /-- option names the `set` built-in refuses while `portable` is on (no POSIX spelling) -/
 def nonPortableOpts : List String := ["hashondefinition", "login", "posixlycorrect"]
 
+/-- `Pipe::pipe` succeeds: two descriptors below the soft limit are free (reader = the lowest, then the writer) -/
+def pipeOk (p : Proc) : Bool :=
+  let o := (Call.open "pipe").runT p
+  !o.1.isErr && !((Call.open "pipe").runT o.2).1.isErr
+
+/-- the here-document of `probe THD <<E` can be set up: `perform` with the temporary file as an owned descriptor
+    (save fd 0 at ≥ `MIN_INTERNAL_FD`, `open_tmpfile`, `dup2`, `close`); afterwards `undo_redirs` puts fd 0 back -/
+def hereDocOk (p : Proc) : Bool := (performRedir p 0 (.file "tmp")).1
+
 /-- the exit status of a mutator in `env` (all succeed except `unalias` of an undefined alias and a `cd`
     whose target does not resolve) -/
 def opStatus (env : Env) : Op → Nat
@@ -572,6 +585,8 @@ def opStatus (env : Env) : Op → Nat
   | .cd d =>
     let old := ((env.variables.vars.find "PWD").map (·.value)).getD ""
     if ((Call.chdir (shorten d old)).runT env.system).1.isErr then 2 else 0
+  -- a redirection error of a regular built-in: status 2, the shell goes on (unless errexit)
+  | .hd => if hereDocOk env.system then 0 else 2
   | _ => 0
 
 /-- the shell exits by itself with `status` (errexit): the EXIT trap runs first -/
@@ -653,6 +668,11 @@ def applyOpCore (sh : Shell) (op : Op) : Shell :=
   | .nofile v => { sh with env := { env with system := ((Call.setrlimit v).runT env.system).2 } }
   | .exit _ => sh
   | .yield => sh
+  -- "cannot connect pipes in the pipeline": `Divert::Interrupt(Some(NOEXEC))` — the script ends with 126 after the EXIT trap
+  | .pl => if pipeOk env.system then sh else exitShell sh 126
+  -- the expansion error of a command substitution that cannot open its pipe ends the shell with 2
+  | .cs => if pipeOk env.system then sh else exitShell sh 2
+  | .hd => if hereDocOk env.system then { sh with events := sh.events ++ ["THD"] } else sh
   | .shift => { sh with env := { env with variables := { env.variables with params := env.variables.params.drop 1 } } }
   | .args xs => { sh with env := { env with variables := { env.variables with params := xs } } }
   | .cd d =>
@@ -965,6 +985,9 @@ structure Case where
   ignored : Option Nat := none
   /-- `Q:1` snapshot `B0` does not run `trap` -/
   quiet : Bool := false
+  /-- `A:` mutators of the first member of the innermost pipeline (`pipeL`): a sibling process of the child; what it
+      does to ITS state shows nowhere — the prediction does not depend on them (`two_children_isolated`) -/
+  first : List Op := []
 
 def baseEnv : Env :=
   { aliases := [], arg0 := "yash", builtins := [], exitStatus := 0, functions := [], jobs := {},
